@@ -417,6 +417,18 @@ def _same_monomial(text, g):
         return False
 
 
+SHARED_ACTION = None     # one Action object for all files of a sequence, as polar.main() uses it
+
+
+def make_shared_action(goals, iters, samples):
+    """the Action the CLI would build for `polar.py f1 f2 ... --simulate --goals ...` (ActionFactory, complete Namespace)"""
+    global SHARED_ACTION
+    from cli.actions import ActionFactory
+    from .sessions import full_namespace
+    ns = full_namespace(simulate=True, goals=[f"E({_goal_text(g)})" for g in goals], simulation_iter=iters, number_samples=samples)
+    SHARED_ACTION = ActionFactory.create_action(ns)
+
+
 def _run_action(text, goals, iters, samples):
     """End to end through cli.actions.SimulationAction: returns (printed means, SimulationResult)."""
     from argparse import Namespace
@@ -440,7 +452,7 @@ def _run_action(text, goals, iters, samples):
     simmod.Simulator.simulate = spy
     try:
         with redirect_stdout(buf), redirect_stderr(io.StringIO()):
-            SimulationAction(args)(path)
+            (SHARED_ACTION if SHARED_ACTION is not None else SimulationAction(args))(path)
     finally:
         simmod.Simulator.simulate = orig
         try:
